@@ -16,8 +16,8 @@ ALL_BAR_OPS = {"tick", "inc", "set_message", "println", "suspend", "reset", "fin
 
 
 def fam(name, W=3, H=4, Multi=False, MaxBars=1, D=4, BarOps=("tick",), MpOps=(), MsgShapes=("a",), TextShapes=("T",),
-        Tpls=("M",), Fins=("AndLeave",), Hz=0, DTs=(0,), Base=1, Align="top", M0="e", TabWs=(8,), Pre=0, Once=False, Tgt="auto", Faults=(), Cover=False, mode="bfs", shards=8):
-    return dict(name=name, mode=mode, shards=shards,
+        Tpls=("M",), Fins=("AndLeave",), Hz=0, DTs=(0,), Base=1, Align="top", M0="e", TabWs=(8,), Pre=0, Once=False, Tgt="auto", Faults=(), Cover=False, mode="bfs", shards=8, model="MC_Screen", extra=None):
+    return dict(name=name, mode=mode, shards=shards, model=model, extra=extra or {},
                 constants=dict(W=W, H=H, Multi=Multi, MaxBars=MaxBars, D=D, BarOps=set(BarOps), MpOps=set(MpOps),
                                MsgShapes=set(MsgShapes), TextShapes=set(TextShapes), Tpls=set(Tpls), Fins=set(Fins),
                                Hz=Hz, DTs=set(DTs), Base=Base, Align=Align, M0=M0, TabWs=set(TabWs), Pre=Pre, Once=Once, Tgt=Tgt, Faults=set(Faults), Cover=Cover))
@@ -32,14 +32,26 @@ def screen_check(pid, tier, seed, families, rules_note, need_paints=True, level=
     per_family = []
     for f in families:
         wd = vlib.workdir("%s_%s_gen" % (pid, f["name"]))
-        cfg = vlib.cfg_text(f["constants"], invariants=["TypeOK"], view="CoverView" if f["constants"].get("Cover") else None)
+        model = f.get("model", "MC_Screen")
+        if model == "MC_Single":
+            # design level: the implementation-shaped draw path against the contract, and its transitions as histories
+            consts = dict(f["constants"], **f.get("extra", {}))
+            cfg = vlib.cfg_text(consts, invariants=["TypeOK", "ScreenMatches", "CursorMatches", "LlcOK"], spec="SSpec", view="SView")
+        else:
+            cfg = vlib.cfg_text(f["constants"], invariants=["TypeOK"], view="CoverView" if f["constants"].get("Cover") else None)
         mode = f["mode"]
         if mode == "bfs":
-            out, dist, gen = vlib.run_tlc("MC_Screen", cfg, wd, mode=mode, workers=4 if tier == "quick" else 8)
+            out, dist, gen = vlib.run_tlc(model, cfg, wd, mode=mode, workers=4 if tier == "quick" else 8)
             hs = vlib.histories_from(out)
         else:
-            outs, dist, gen = vlib.run_tlc_sims("MC_Screen", cfg, wd, mode[1], mode[2], seed)
+            outs, dist, gen = vlib.run_tlc_sims(model, cfg, wd, mode[1], mode[2], seed)
             hs = [h for o in outs for h in vlib.histories_from(o)]
+        if not hs and model == "MC_Single" and not f["constants"].get("Cover"):
+            states += dist
+            trans += gen
+            per_family.append({"family": f["name"], "mode": "design-level invariants only", "histories": 0, "records": 0, "verdicts": 0,
+                               "tlc_distinct_states": dist, "tlc_states_generated": gen})
+            continue
         if not hs:
             raise vlib.ToolError("family %s generated no histories" % f["name"])
         states += dist
@@ -91,6 +103,12 @@ def c01(pid, tier, seed):
             TextShapes=("T", "TW", "TW1", "T2W1", "TnlT", "TnnT", "e", "nl", "nlT", "Tnl", "TWnnT", "T2WnnT", "TWnT", "TWnTW"), Tpls=("M", "PnM", "MnC"), Base=0),
         fam("single_limited", W=3, H=4, D=4 if q else 5, BarOps=("burst", "tick", "set_message", "println", "finish", "finish_and_clear", "drop"), Hz=20, DTs=(0, 50000),
             MsgShapes=("a", "W1", "nlA"), TextShapes=("T", "TW1")),
+        fam("design_single", W=3, H=4, D=7 if q else 8, BarOps=("tick", "set_message", "println", "suspend", "finish", "finish_and_clear", "reset", "drop"),
+            MsgShapes=("e", "a", "W", "W1", "nlA", "Anl", "WnnA"), TextShapes=("T", "TW1", "e", "TWnnT"), Tpls=("M", "PnM"), Fins=("AndLeave", "AndClear"),
+            model="MC_Single", extra=dict(MaxLog=2, TextOnlyNewline=True)),
+        fam("design_single_cover", W=4, H=3, D=4 if q else 6, BarOps=("tick", "set_message", "println", "suspend", "finish_with_message", "finish_and_clear", "drop"),
+            MsgShapes=("e", "a", "W", "W1", "2W1", "nlA", "AnnB"), TextShapes=("T", "TW", "e", "TnnT"), Tpls=("M", "MnC"), Fins=("AndLeave", "AndClear"), Cover=True,
+            model="MC_Single", extra=dict(MaxLog=2, TextOnlyNewline=True)),
         fam("single_deep", W=5, H=6, D=30, BarOps=ALL_BAR_OPS - {"iter"}, MsgShapes=("e", "a", "W", "W1", "2W1", "nlA", "Anl", "AnnB", "sA", "wide"),
             TextShapes=("T", "TW", "TW1", "TnlT", "e"), Tpls=("M", "PM", "PnM", "MnC", "LM"), Fins=("AndLeave", "AndClear", "Abandon", "WithMessage"),
             DTs=(0, 1000), mode=("sim", 400 if q else 4000, 32)),
